@@ -326,7 +326,7 @@ func init() {
 			return s
 		},
 		Run:  c11Run,
-		Rule: "data graph of depth 3 from a struct/map/slice/pointer type family (repeated field names at several depths, prefix names Kids/KidsX, value- and pointer-receiver methods returning leaves/structs/slices, every leaf string spelling its own Go path); from 8 roots (struct value, pointer, slices and a leaf under names that are also field names, a map, a []interface{} of different struct types holding the same field names at different positions) every walk of the type graph of <=L steps (field, index, map key, method call) ending at a string leaf, with indexes/keys spelled as literals, variables, i+0 expressions, variables named like fields expressions that mention the root variable (len(ROOT) / 2), indexes that are themselves index-then-member paths through the same root, and unsigned / 64-bit index variables; each used in an output tag, through let, and (for walks through a slice) as loop iterable with the tail applied to the loop variable. Expected value = Go navigation by reflection. Every walk prefix is also extended by one uncompletable step (missing key, nil pointer then member/method, index 9 / -1 via variable, unknown field/method, unexported field), alone and followed by a further .Field / .Field[0] / .Method() continuation. Oracle: completable => exactly the leaf, or an error; never another value, never empty without error. Uncompletable => error or empty output, never a leaf, never a panic. (poly) one field / method / indexed / helper-result path node evaluated with receivers of 3 struct types (and a pointer) whose same-named fields and methods sit at different positions - in a loop over a mixed slice in 6 orders and as consecutive executions of one parsed template: always the named member of the current receiver; a path through a name rebound to nil in an inner scope (let, parameter, loop variable, partial data) fails or is empty, it never continues from the outer variable. Non-trivial: walks with >=2 steps.",
+		Rule: "data graph of depth 3 from a struct/map/slice/pointer type family (repeated field names at several depths, prefix names Kids/KidsX, value- and pointer-receiver methods returning leaves/structs/slices, every leaf string spelling its own Go path); from 8 roots (struct value, pointer, slices and a leaf under names that are also field names, a map, a []interface{} of different struct types holding the same field names at different positions) every walk of the type graph of <=L steps (field, index, map key, method call) ending at a string leaf, with indexes/keys spelled as literals, variables, i+0 expressions, variables named like fields expressions that mention the root variable (len(ROOT) / 2), indexes that are themselves index-then-member paths through the same root, and unsigned / 64-bit index variables; each used in an output tag, through let, and (for walks through a slice) as loop iterable with the tail applied to the loop variable. Expected value = Go navigation by reflection. Every walk prefix is also extended by one uncompletable step (missing key, nil pointer then member/method, index 9 / -1 via variable, unknown field/method, unexported field), alone and followed by a further .Field / .Field[0] / .Method() continuation. Oracle: completable => exactly the leaf, or an error; never another value, never empty without error. Uncompletable => error or empty output, never a leaf, never a panic. (poly) one field / method / indexed / helper-result path node evaluated with receivers of 3 struct types (and a pointer) whose same-named fields and methods sit at different positions - in a loop over a mixed slice in 6 orders and as consecutive executions of one parsed template: always the named member of the current receiver; paths whose tail mentions the indexed variable again (as an index, as a method argument) see the collection, not the element; a path through a name rebound to nil in an inner scope (let, parameter, loop variable, partial data) fails or is empty, it never continues from the outer variable. Non-trivial: walks with >=2 steps.",
 		Bound: func(th bool) string {
 			if th {
 				return "walk length <=7"
@@ -348,6 +348,29 @@ func c11Run(t *engine.T, shard string) {
 				}
 				if out != pc.Want {
 					return "", engine.Failf("wrong-value", "Go navigation yields %q, template rendered %q", pc.Want, out)
+				}
+				return "value", nil
+			})
+		}
+		// the tail of an indexed path may mention the indexed variable again (as index, as argument): it still names the collection
+		self := []struct{ src, want string }{
+			{`<%= people[0].Greets(people[1].Name) %>`, "p0 greets p1"}, {`<%= people[1].Tags[people[0].N] %>`, "p1t1"}, {`<%= people[0].Tags[len(people) - 2] %>`, "p0t0"},
+			{`<%= team["a"].Greets(team["b"].Name) %>`, "ta greets tb"}, {`<%= people[people[0].N].Name %>`, "p1"}, {`<%= people[1].Greets(people[people[0].N].Name) %>`, "p1 greets p1"},
+			{`<% let people2 = people %><%= people2[0].Greets(people2[1].Name) %>|<%= people[0].Greets(people2[1].Name) %>`, "p0 greets p1|p0 greets p1"},
+		}
+		for _, c := range self {
+			c := c
+			t.Case("self-mention "+q(c.src), true, func() (string, *engine.Fail) {
+				plush.CacheEnabled = false
+				ctx := plush.NewContext()
+				ctx.Set("people", []c11P{{"p0", 1, []string{"p0t0", "p0t1"}}, {"p1", 0, []string{"p1t0", "p1t1"}}})
+				ctx.Set("team", map[string]c11P{"a": {"ta", 0, nil}, "b": {"tb", 0, nil}})
+				out, err := plush.Render(c.src, ctx)
+				if err != nil {
+					return "fails", nil // a valid path may fail, it never yields another value
+				}
+				if out != c.want {
+					return "", engine.Failf("wrong-value", "Go navigation yields %q, template rendered %q", c.want, out)
 				}
 				return "value", nil
 			})
@@ -619,3 +642,11 @@ func c11Bad(t *engine.T, rs c11RootSpec, steps []c11Step) {
 		}
 	}
 }
+
+type c11P struct {
+	Name string
+	N    int
+	Tags []string
+}
+
+func (p c11P) Greets(other string) string { return p.Name + " greets " + other }
